@@ -12,6 +12,8 @@ require (
 	github.com/libp2p/go-libp2p-pubsub v0.4.1
 	github.com/multiformats/go-multiaddr v0.3.3
 	github.com/multiformats/go-multihash v0.0.15
+	github.com/ugorji/go/codec v1.2.6
+	go.opencensus.io v0.23.0
 )
 
 replace github.com/ipfs/ipfs-cluster => /repo
